@@ -210,6 +210,8 @@ def classify_atoms(sx: SymX, f: Formula, path: Term | None, name_atoms: frozense
             l = loc(t[2])
             if l[0] == "attr" and l[2] == "suffix" and same(l[1]):
                 role = "PY" if unbox(t[3])[1] == (("const", PY),) else "SUFFIX"  # a set of suffixes wider than {'.py'}
+        elif t[0] == "cmp" and t[1] == "in" and t[2][0] == "const" and (l_ := loc(t[3]))[0] == "attr" and l_[2] in ("suffixes", "name") and same(l_[1]):
+            role = "SUFFIX"  # `'.py' in path.suffixes` / `'.py' in path.name`: also true for `a.py.bak`
         elif t[0] == "mcall" and t[2] == "endswith" and len(t[3]) == 1 and t[3][0][0] == "const":
             l = loc(t[1])
             if same(l) or (l[0] == "attr" and l[2] == "name" and same(l[1])):
@@ -522,6 +524,13 @@ def _children_handed_on(info: ScanInfo, d: Event):
         for a in [*e.args, *[v for _k, v in e.kwargs]]:
             # a value chosen among several (e.g. `[]` for an excluded directory, else its entries): each alternative counts
             operands += [v for _g, v in a[1]] if a[0] == "phi" else [a]
+        for a in list(operands):
+            if a[0] == "yields":
+                # the entries are yielded by a helper generator: every yielded value counts (with the condition of its yield)
+                for g, v in a[1]:
+                    if v[0] == "elem" and _unwrap_iterable(v[1]) == entries:
+                        extra = [x for x in sorted(atoms_of(g)) if x not in {y for c in d.pc for y in atoms_of(c)}]
+                        (bad if extra else good).append(f"an entry is only handed on if `{extra[0][:120]}`" if extra else "each entry")
         for a in operands:
             src = _unwrap_iterable(a)
             if src == entries:
